@@ -561,6 +561,23 @@ def _guarded(ctx, fn, node, pats, pol):
     return any(p == pol and match_any(t, pats) is not None for (t, p, _) in ctx.guards(fn, node))
 
 
+def _means_view(t):
+    """t is the caller's `means` seen through shape-only conversions, on every alternative."""
+    alts = t[1] if t[0] == 'phi' else (t,)
+    shape_only = ('numpy.atleast_1d', 'numpy.atleast_2d', 'numpy.squeeze', 'numpy.asanyarray',
+                  'numpy.asarray', 'numpy.array')
+
+    def view(x):
+        if x == ('param', 'means'):
+            return True
+        if x[0] == 'call' and x[1][0] == 'global' and x[1][1] in shape_only and x[2] and \
+                not x[3]:
+            return view(x[2][0])
+        return False
+    return all(view(a) for a in alts)
+
+
+
 @obligation('C13-f', 'T8 T11', 'defaults apply only when the argument is missing; what was computed '
             'is what is returned (mixture density, sampler output, normalised parameters)',
             floor=9,
@@ -594,7 +611,7 @@ def c13_f(ctx):
         t = ex.term(rr[0].value)
         ok = t[0] == 'tuple' and len(t[1]) == 2 and \
             match(t[1][1], pattern('normalize_weights(_w)')) is not None and \
-            match(t[1][0], pattern('np.atleast_1d(np.squeeze(means))')) is not None
+            _means_view(t[1][0])
     ctx.check(ok, npar, 'returns (means, normalised weights)',
               'return means, normalize_weights(weights)',
               'the parameter normalisation does not return (means, normalised weights) in this '
@@ -759,3 +776,39 @@ def c13_g(ctx):
 def c13_dtype(ctx):
     from .base import inherited_dtype_obligation
     inherited_dtype_obligation(ctx, ['elfi.methods.utils'])
+
+
+@obligation('C13-i', 'T11', 'parameter normalisation keeps the component axis of a single '
+            'k-dimensional component: the array of means is squeezed only on the side of a test of '
+            'its shape', floor=1,
+            necessary='an unconditional np.squeeze turns the means of one k-dimensional component, '
+                      'shape (1, k), into k one-dimensional components: density and sampler then '
+                      'describe another mixture (or raise on a matrix covariance)')
+def c13_i(ctx):
+    gm = ctx.cls('elfi.methods.utils:GMDistribution')
+    npar = gm.lookup('_normalize_params')
+    if npar is None:
+        raise AnchorMissing('GMDistribution._normalize_params')
+    ex = ctx.ex(npar)
+    pm = npar.params[0] if npar.is_static else npar.params[1]
+    n = 0
+    for c in ctx.calls(npar, name='squeeze'):
+        if any(k.arg == 'axis' for k in c.keywords) or len(c.args) > 1:
+            continue
+        arg = c.args[0] if c.args else (c.func.value if isinstance(c.func, ast.Attribute)
+                                        else None)
+        if arg is None or ('param', pm) not in set(subterms(ex.term(arg))):
+            continue
+        n += 1
+        from .base import unweak
+        gs = [unweak(t) for (t, pol, _) in ctx.guards(npar, c)]
+        ok = any(contains(t, '_.shape') or contains(t, 'np.shape(_)') or contains(t, 'len(_)')
+                 for t in gs)
+        ctx.check(ok, npar, 'squeeze of the means is conditional on their shape',
+                  'a (1, k) array keeps its component axis',
+                  '`{}` squeezes the array of means whatever its shape: a single k-dimensional '
+                  'component (shape (1, k)) becomes k one-dimensional components'.format(
+                      src(c)[:50]), fn=npar, node=c)
+    if n == 0:
+        ctx.ok(npar, 'the means are never fully squeezed', 'no np.squeeze of the means', fn=npar,
+               node=npar.node)
